@@ -14,8 +14,9 @@ VARIABLE l
 Mem(e, id) == IF id \in DOMAIN e.members THEN {e.members[id][i] : i \in 1..Len(e.members[id])} ELSE {}
 Stands(n, m) == IF n.cyc THEN n.den = m ELSE (n.t = m \/ n.u = m)
 
+\* (tr: the declared type as an object -- the graph may hold a node for None and one for NoneType)
 NoDup(e) == \A i, j \in 1..Len(e.nodes) : i # j =>
-              <<e.nodes[i].t, e.nodes[i].u, e.nodes[i].var, e.nodes[i].cyc>> # <<e.nodes[j].t, e.nodes[j].u, e.nodes[j].var, e.nodes[j].cyc>>
+              <<e.nodes[i].tr, e.nodes[i].u, e.nodes[i].var, e.nodes[i].cyc>> # <<e.nodes[j].tr, e.nodes[j].u, e.nodes[j].var, e.nodes[j].cyc>>
 RootLast(e) == Len(e.nodes) > 0 /\ (e.nodes[Len(e.nodes)].t = e.root \/ e.nodes[Len(e.nodes)].u = e.rootu) /\ ~e.nodes[Len(e.nodes)].cyc
 \* su: the declared type unwrapped by the harness (NewType / alias / Final / ClassVar peeled with typing only)
 MembersFirst(e) == \A i \in 1..Len(e.nodes) : ~e.nodes[i].cyc =>
@@ -28,7 +29,9 @@ CyclicImpliesRevisit(e) == \A i \in 1..Len(e.nodes) : e.nodes[i].cyc =>
                              \/ \E k \in 1..Len(e.nodes) : ~e.nodes[k].cyc /\ {e.nodes[k].t, e.nodes[k].u} \cap {e.nodes[i].den, e.nodes[i].denu} # {}
 \* the deferred node's own `unwrapped` denotes the type it stands for (or its unwrapped form), parameters included
 DeferredUnwrappedDenotes(e) == \A i \in 1..Len(e.nodes) : (e.nodes[i].cyc /\ e.nodes[i].den # "unresolvable") =>
-                             e.nodes[i].uden \in {e.nodes[i].den, e.nodes[i].denu}
+                             \* (some stage of unwrapping it: a string alias unwraps to the reference to its body only)
+                             \/ e.nodes[i].uden \in {e.nodes[i].den, e.nodes[i].denu}
+                             \/ \E s \in 1..Len(e.nodes[i].dstages) : e.nodes[i].dstages[s] = e.nodes[i].uden
 DeferredDenotesExactly(e) == \A i \in 1..Len(e.nodes) : e.nodes[i].cyc =>
                              /\ e.nodes[i].den # "unresolvable"
                              \* it stands for a direct member of the node(s) that depend on it
